@@ -32,6 +32,13 @@ Theorem C07_reachable : forall fs root path p k,
 Proof. exact reachable. Qed.
 Print Assumptions C07_reachable.
 
+(* one handler across ANY history of requests with its document root replaced on the way (setDocumentRoot): whatever is
+   served lies inside the root in force at that point; what an earlier root allowed is gone *)
+Theorem C07_history_contained : forall fs ops root,
+  good_root root -> Forall good_op ops -> Forall inside (fh_run fs root ops).
+Proof. exact history_contained. Qed.
+Print Assumptions C07_history_contained.
+
 Example C07_nonvacuous :
   let fs := [ {| fe_path := [BASE; B "SECRET"]; fe_dir := false; fe_content := B "s" |};
               {| fe_path := [BASE; B "root"; B "a.txt"]; fe_dir := false; fe_content := B "0123" |} ] in
